@@ -930,6 +930,9 @@ class Unit:
                 edits.append(("call", m.group(1), (int(m.group(2)), m.group(3)), lno)); k += 1
                 continue
             if ln.startswith("//@insert"):
+                optional = ln.startswith("//@insert?")
+                if optional:
+                    ln = "//@insert" + ln[len("//@insert?"):]
                 m = re.match(r"//@insert\s+(before|after|inv)\s+`(.*)`\s*$", ln)
                 if not m:
                     m = re.match(r"//@insert\s+(tail|start|end)()\s*$", ln)
@@ -939,7 +942,7 @@ class Unit:
                 k += 1
                 while k < len(block) and not block[k][1].startswith("//@"):
                     body.append(block[k]); k += 1
-                edits.append((m.group(1), m.group(2), body, lno))
+                edits.append((m.group(1) + ("?" if optional else ""), m.group(2), body, lno))
                 continue
             if ln.startswith("//@"):
                 raise AnchorLost("%s:%d: unknown directive inside fn block" % (self.vc_path, lno))
@@ -1057,6 +1060,14 @@ class Unit:
                     new_body = new_body[:ob] + "\n/*@ghost-begin %d*/\n%s\n/*@ghost-end*/\n" % (lno, text) + new_body[ob:]
                     self.counts.add("ghost-insertions")
                     continue
+                if mode.endswith("?"):
+                    # optional ghost hint: when the statement it annotates is gone the hint is skipped and the proof stands or falls without it
+                    mode = mode[:-1]
+                    try:
+                        find_anchor(new_body, anchor, "")
+                    except AnchorLost:
+                        self.counts.add("ghost-insertions-skipped(anchor absent)")
+                        continue
                 a, b = find_anchor(new_body, anchor, "%s (%s:%d)" % (path, os.path.basename(self.vc_path), lno))
                 if mode == "replace":
                     nst, repl = ins
@@ -1107,22 +1118,27 @@ class Unit:
             self.emit(ln, owner_name, label, "spec", src="%s:%d" % (os.path.basename(self.vc_path), lno))
         # body, line by line, with source line numbers where they can be recovered
         body_first_line = s.line_of(toks[it["body_open"]].start)
-        ghost = False
+        ghost = False; glabel = None
         srcno = body_first_line
         orig_lines = [x.strip() for x in body.split("\n")]
         cursor = 0
         for bl in new_body.split("\n"):
             if bl.startswith("/*@ghost-begin"):
-                ghost = True; continue
+                ghost = True; glabel = None; continue
             if bl.startswith("/*@ghost-end*/"):
-                ghost = False; continue
+                ghost = False; glabel = None; continue
+            if ghost:
+                # a `// [Cnn.label]` comment inside an inserted invariant block names the clauses that follow it (until the next `// [..]` comment, `// []` resets, or the end of the block)
+                mlab = re.match(r"\s*//\s*\[([^\]]*)\]", bl)
+                if mlab:
+                    glabel = mlab.group(1).strip() or None
             exact = False
             if not ghost and bl.strip():
                 for q in range(cursor, len(orig_lines)):
                     if orig_lines[q] == bl.strip():
                         srcno = body_first_line + q; cursor = q + 1; exact = True
                         break
-            self.emit(bl, owner_name, None, "ghost" if ghost else "body",
+            self.emit(bl, owner_name, glabel if ghost else None, "ghost" if ghost else "body",
                       src="%s:%s%d" % (rel, "" if exact else "~", srcno))
         if impl_open:
             self.emit("}", owner_name, None, "glue")
